@@ -1,7 +1,7 @@
 """C03 — failures skip dependents, spare independents, and decide the exit status."""
 import signal
 
-from .. import graph, model
+from .. import graph, model, reallayer
 from ..runner import Outcome
 
 ID = "C03"
@@ -11,7 +11,8 @@ RULE = ("Hypothesis-generated graph cases x outcome maps with 0-4 non-success en
         "{default, --stop-early}. Oracle = model fixed point of started/succeeded/failed/skipped over the needed "
         "set vs. spawn log, report sections, exit status and the killpg log. Non-trivial = >=1 failure that has >=1 "
         "transitive dependent in the needed set AND >=1 needed task independent of it. Distinct = SHA-1 of case JSON."
-        " A quarter of the cases come from an experiment-heavy generator in which every second experiment is cached (failure propagation through pruned tasks); launch failures include a command with a NUL byte.")
+        " A quarter of the cases come from an experiment-heavy generator in which every second experiment is cached (failure propagation through pruned tasks); launch failures include a command with a NUL byte."
+        + reallayer.RULE_NOTE)
 ASSUMPTIONS = ["under --stop-early nothing is demanded about the 'Skipped' section (documentation does not define it)",
                "a SIGTERMed virtual child dies at once"]
 ESSENTIAL = ["fail_exit", "fail_signal", "fail_launch_eagain", "fail_launch_enoent", "failure_through_group",
@@ -31,7 +32,9 @@ def strategy(tier):
     cached = graph.graph_case(max_tasks=8 if tier == "quick" else 12, outcomes="some", max_bad=3, kind_weights=(2, 6, 1, 0),
                               p_seed_den=2, tape_max=50, tape_hi=31, densities=("dense", "sparse"), flags=("stop_early",),
                               jobs=(None, 2, 3, 3, 4))
-    return st.one_of(general, general, cached, graph.layered_case(flags=("stop_early",), p_fail_den=3))
+    virtual = st.one_of(general, general, cached, graph.layered_case(flags=("stop_early",), p_fail_den=3))
+    real = st.one_of(reallayer.real_case(flags=("stop_early",)), reallayer.real_case(flags=("stop_early",), layered=True))
+    return reallayer.mixed(virtual, real)
 
 
 def examples(tier):
@@ -39,6 +42,8 @@ def examples(tier):
 
 
 def run_case(case):
+    if case.get("layer") == "real":
+        return check(case, reallayer.run_real(case))
     return check(case, graph.run_graph_case(case))
 
 
@@ -63,7 +68,7 @@ def check(case, res):
     obs = graph.Obs(case, res)
     ids = obs.ids
     v = []
-    labels = []
+    labels = ["real_processes"] if case.get("layer") == "real" else []
     if res["status"] in ("deadlock", "livelock"):
         return Outcome([], ["deadlock_ignored_here"], False, obs.brief())
     again = "again" in case["flags"]
@@ -142,7 +147,7 @@ def check(case, res):
         if fails:
             tau = fails[0][0]
             first_failed = fails[0][2]
-            late = [e["task"] for i, e in enumerate(obs.events) if i > tau and e["e"] in ("spawn",)]
+            late = [e["task"] for i, e in enumerate(obs.events) if i > tau and e["e"] in ("spawn",) and not e.get("late")]
             late += [m[2] for m in obs.lines("running") if m[0] > tau]
             if late:
                 v.append(("started_after_first_failure", "--stop-early: %s started after the failure of %s was observed" % (sorted(set(late)), first_failed)))
@@ -151,6 +156,10 @@ def check(case, res):
                 labels.append("stop_early_with_inflight")
             for p in inflight:
                 killed = [k for k in obs.kills if k[1] == p["ev"]["pid"] and k[2] == signal.SIGTERM]
+                if not killed and case.get("layer") == "real":
+                    # a real task may finish by itself between the failure and the SIGTERM; it is a violation only if it
+                    # outlived cond (its E line comes after cond returned), which is `running_at_return` below
+                    continue
                 if not killed:
                     v.append(("not_terminated", "--stop-early: %s was still running at the first failure and never got SIGTERM" % p["task"]))
             if res["status"] != 1:
